@@ -60,9 +60,60 @@ struct World {
     script: RefCell<Vec<(usize, Vec<String>)>>,
 }
 
+
+/// obtain a handle of node `i` by the provenance named in the step's trailing `via:<how>` token (C03: the effect of an
+/// operation must not depend on which handle of the node is used). Falls back to a clone when that provenance is not
+/// available in the current graph.
+fn handle_via(w: &World, i: usize, how: &str) -> N {
+    let base = w.nodes.borrow()[i].clone();
+    match how {
+        // endpoint of an edge handed out by the node's own iterator (a clone made by the iterator)
+        "e" => match base.iter_out().next() {
+            Some(e) => e.source().clone(),
+            None => base,
+        },
+        // target endpoint of an edge of some OTHER node: obtained by upgrading the weak adjacency entry
+        "t" => {
+            for n in w.nodes.borrow().iter() {
+                for e in n.iter_out() {
+                    if e.target().key() == base.key() {
+                        return e.target().clone();
+                    }
+                }
+            }
+            base
+        }
+        // container lookup
+        "g" => {
+            let mut g: Graph<u64, i64, u64> = Graph::new();
+            g.insert(base.clone());
+            g.get(base.key()).unwrap()
+        }
+        // search result
+        "s" => {
+            for n in w.nodes.borrow().iter() {
+                if n.key() != base.key() {
+                    if let Some(r) = n.bfs().target(base.key()).search() {
+                        return r;
+                    }
+                }
+            }
+            base
+        }
+        _ => base,
+    }
+}
+
 /// node-channel steps; used at top level and from inside callbacks
 fn exec_node_step(w: &World, st: &[String]) -> Option<String> {
-    let node = |i: &String| w.nodes.borrow()[pusize(i)].clone();
+    let how: String = st.last().and_then(|t| t.strip_prefix("via:")).unwrap_or("").to_string();
+    let node = |i: &String| {
+        if how.is_empty() {
+            w.nodes.borrow()[pusize(i)].clone()
+        } else {
+            handle_via(w, pusize(i), &how)
+        }
+    };
     Some(match st[0].as_str() {
         "new" => {
             let n = Node::new(pu64(&st[1]), pi64(&st[2]));
